@@ -4,7 +4,7 @@ from checks import rmfail_phase
 
 MANIFEST = dict(
     text="Kernel-checked for ALL histories, failure oracles and Reset iteration orders: every rule in the (model) data plane belongs to a live session and is in that session's recorded id set (containment, part of the world invariant proved preserved by every step); Sess.Close withdraws every rule of the session assuming only containment, i.e. also after failed installations (close_withdraws, for the Close order regenerated from node.go); every session end goes through delete_sess whose post-condition (slot released, no rule left, other sessions and their rules untouched) is proved; Update/Remove/Query for ids the session has not recorded never reach the driver. Tie: differential run of the model vs the real handlers with a model data plane that fails scripted create/update/query calls; monitors on the trace.",
-    note="The data plane is the harness's ModelDP (create fails when scripted or when the rule exists; update/query fail when scripted or absent; remove fails when absent). A URR id stays recorded between its successful removal and the emission of its report (documented in DESIGN.md). ",
+    note="The data plane is the harness's ModelDP (create fails when scripted or when the rule exists; update/query fail when scripted or absent; remove fails when absent; in the separate refused-removal phase - monitor only, not a model event - a Modification Request's removal of an installed rule is refused: the session keeps the rule recorded and withdraws it when it ends). A URR id stays recorded between its successful removal and the emission of its report (documented in DESIGN.md). ",
     technique='Coq invariant + withdrawal proof over all histories/fault oracles + differential run + trace monitors',
     design='4/C01')
 
